@@ -1,10 +1,10 @@
 import Gv.Model.Fmt.Clustal
-import Gv.Proofs.BagInv
+import Gv.Proofs.FmtBagInv
 /-!
 Clustal parser: what a successful parse looks like (helper development for `Props/C03.lean`).
 -/
 namespace Gv.Proofs.ClustalOutcome
-open Gv Gv.Model Gv.Model.Fmt Gv.Model.Fmt.Clustal Gv.Proofs.BagInv
+open Gv Gv.Model Gv.Model.Fmt Gv.Model.Fmt.Clustal Gv.Proofs.FmtBagInv
 
 theorem foldlM_inv : ∀ (rows : List XRow) (b b' : Bag), Inv b →
     rows.foldlM (fun (b : Bag) r => b.add r.1 r.2) b = some b' → Inv b'
